@@ -4,7 +4,7 @@
    of the index it stands for, for any symmetry-consistent phase function. The numerical identities
    (map = Fourier sum, inverse transform, half/full, XYZ/ZYX) involve pocketfft and floating point and
    are decided by O(N^2) direct-sum oracles on the implementation (see DESIGN.md). *)
-From GV Require Import Sym.AsuDefs Move.MoveProofs Fft.Place Fft.PlaceProofs Fft.PlaceWhole.
+From GV Require Import Sym.AsuDefs Move.MoveProofs Fft.Place Fft.PlaceProofs Fft.PlaceWhole Fft.AsuLookup.
 Local Open Scope Z_scope.
 
 Theorem C14_slots_do_not_collide : forall g u v w u' v' w',
@@ -70,3 +70,19 @@ Example C14_whole_grid_example :
   end = 4%nat.
 Proof. vm_compute. reflexivity. Qed.
 
+
+(* ------------------------------------------------------------------------------------------------------------
+   prepare_asu_data (recgrid.hpp, XYZ order; Fft/AsuLookup.v): the slot it reads for an index is the slot in which
+   get_f_phi_on_grid / the transform keep that index - rindex_n of the index itself, or, on a half-l grid for l < 0, of
+   its Friedel mate with the value conjugated - and the slot lies inside the grid for every index the grid holds. *)
+Theorem C14_asu_lookup_is_placement_index : forall g h k l,
+  asu_lookup g (h, k, l) =
+  if g_half g && (l <? 0) then (rindex_n g (- h) (- k) (- l), true) else (rindex_n g h k l, false).
+Proof. exact asu_lookup_is_placement_index. Qed.
+Print Assumptions C14_asu_lookup_is_placement_index.
+
+Theorem C14_asu_lookup_in_bounds : forall g h k l,
+  g_zyx g = false -> 0 < g_nu g -> 0 < g_nv g -> 0 < g_nw g -> has_index g h k l = true ->
+  0 <= fst (asu_lookup g (h, k, l)) < g_nu g * g_nv g * g_nw g.
+Proof. exact asu_lookup_in_bounds. Qed.
+Print Assumptions C14_asu_lookup_in_bounds.
